@@ -24,7 +24,11 @@ for d in sorted(glob.glob("/verif/seeded/*/")):
     for i in ([prop] if not ids else ids):
         if i not in checks:
             checks.append(i)
-    pf = d + ("patch_rebased_on_hooks.diff" if os.path.exists(d + "patch_rebased_on_hooks.diff") else "patch.diff")
+    pf = d + "patch.diff"
+    for alt in ("patch_rebased_on_fixes.diff", "patch_rebased_on_hooks.diff", "patch_rebased.diff"):
+        if os.path.exists(d + alt):
+            pf = d + alt
+            break
     items.append((name, pf, checks))
 if os.path.isdir("/tmp/wt3/keep"):
     for k, v in sorted(R3.items()):
